@@ -30,7 +30,7 @@ REQUIRED_CLASSES = ('buffering:default', 'buffering:line', 'buffering:flush-per-
                     'count:declared', 'count:backfilled', 'vel:yes', 'vel:no', 'crash:inside-close',
                     'crash:between-records', 'crash:mid-record', 'prefix:shipped', 'prefix:generated',
                     'accepted:complete-file', 'accepted:inside-box-line', 'api:extrapolate_system', 'api:write_gro',
-                    'api:write_comparative_gro', 'prefix:large-file')
+                    'api:write_comparative_gro', 'prefix:large-file', 'names:first-records-numeric')
 RULE = ('fault space: (writer run x buffering model x writer statement boundary) -> distinct on-disk images; every byte '
         'prefix of each in-progress stream; every byte prefix of complete files. A case is one (image or prefix) fed to '
         'the reader. Non-trivial: the image is non-empty and is not the complete file. distinct = distinct images per '
@@ -143,6 +143,13 @@ def run_writer(ctx, case):
     spec = grospec.gen_spec(rng, nmax=12 if ctx.tier == 'quick' else 50, force={'declare': bool(i % 2)},
                             with_vel=bool((i // 2) % 2))
     spec['use_writelines'] = (i % 5 == 0)
+    if i % 4 in (0, 1):
+        # the first records consist of numbers only (residue '2', atoms '1', 'INF', '1e3' ...): lines that could be taken
+        # for a box line by a reader that is not told how many atoms to expect
+        for k, rec in enumerate(spec['records'][:int(rng.integers(1, 4))]):
+            rec['resname'] = ['2', '1', 'INF', 'NAN', '1e3', '7'][int(rng.integers(0, 6))]
+            rec['name'] = ['1', '2', '3', 'INF', '1e3', '0'][int(rng.integers(0, 6))]
+        ctx.hit('names:first-records-numeric')
     path = os.path.join(_tmp['dir'], f'w{os.getpid()}.gro')
     scratch = os.path.join(_tmp['dir'], f'r{os.getpid()}.gro')
     if os.path.exists(path):
